@@ -11,6 +11,7 @@ mod api;
 mod evidence;
 mod gen;
 mod keys;
+mod legs;
 mod model;
 mod mon;
 mod pipeline;
@@ -27,6 +28,12 @@ fn main() {
         std::process::exit(2);
     }
     let property = args[1].clone();
+    if property == "C09-vclock" {
+        // child of the virtual-clock leg (runs under LD_PRELOAD=shim/libvclock.so)
+        api::install_panic_hook();
+        mon::c09::vclock_child(args[2].parse().expect("base timestamp"));
+        return;
+    }
     let mut tier = match args[2].as_str() {
         "quick" => Tier::Quick,
         "thorough" => Tier::Thorough,
@@ -84,6 +91,10 @@ fn main() {
         threads,
         only_case,
         scale,
+        shard: std::env::var("VERIF_SHARD").ok().and_then(|s| {
+            let (a, b) = s.split_once('/')?;
+            Some((a.parse().ok()?, b.parse().ok()?))
+        }),
         out_dir: std::env::var("VERIF_OUT").unwrap_or_else(|_| verif_dir.clone()),
         verif_dir,
     };
@@ -96,6 +107,13 @@ fn main() {
             std::process::exit(2);
         }
     };
+    if let Ok(partial) = std::env::var("VERIF_PARTIAL") {
+        // child of a sharded run: hand the accumulators to the parent, no verdict here
+        let mut v = report.local.to_json();
+        v["inconclusive"] = serde_json::json!(report.inconclusive);
+        std::fs::write(&partial, v.to_string()).expect("write partial");
+        return;
+    }
     let code = evidence::finish(&ctx, report, t0);
     std::process::exit(code);
 }
